@@ -88,7 +88,7 @@ fn client_ops(db: Arc<DB>, plan: Arc<crate::plan::Plan>, client: usize, earlier:
                 }
             }
             with_out(&out, |o| o.stats.writes += 1);
-            match call("apply", || db.apply(WriteOptions::default(), b)) {
+            match call("apply", || db.apply(wopts(), b)) {
                 Called::Ok(Ok(())) => mine.push(W { items, ok: true, idx: 10_000 * (client + 1) + idx }),
                 Called::Ok(Err(_)) => {
                     with_out(&out, |o| o.stats.bump("writes_returning_err", 1));
@@ -191,7 +191,7 @@ pub fn body(case: &Case, out: &Shared) {
                 }
             }
             with_out(out, |o| o.stats.writes += 1);
-            match call("apply", || d.apply(WriteOptions::default(), b)) {
+            match call("apply", || d.apply(wopts(), b)) {
                 Called::Ok(Ok(())) => writes.push(W { items, ok: true, idx }),
                 Called::Ok(Err(_)) => {
                     with_out(out, |o| o.stats.bump("writes_returning_err", 1));
